@@ -3,6 +3,7 @@ package fuse
 import (
 	"bytes"
 	"context"
+	"io"
 	"syscall"
 
 	"bazil.org/fuse"
@@ -341,4 +342,127 @@ func VerifMountLocks() {
 		rt.Check(lockFn(verifLockReq(9, start, end, fuse.LockWrite)) == nil || (shm && bytesList[want] == litefs.WAL_CKPT_LOCK && held >= 0 && bytesList[held] == litefs.WAL_WRITE_LOCK), "mount: released lock can be taken exclusively")
 	}
 	rt.Reach("mount.lock.granted")
+}
+
+func verifReadAll(ctx context.Context, n *PosNode, chunk int) ([]byte, error) {
+	var out []byte
+	for off := int64(0); off < 64; {
+		resp := &fuse.ReadResponse{}
+		err := n.Read(ctx, &fuse.ReadRequest{Offset: off, Size: chunk}, resp)
+		if err != nil {
+			if len(out) > 0 && err == io.EOF {
+				return out, nil
+			}
+			return out, err
+		}
+		if len(resp.Data) == 0 {
+			break
+		}
+		out = append(out, resp.Data...)
+		off += int64(len(resp.Data))
+	}
+	return out, nil
+}
+
+// VerifMountPos: what a replica reports through the "-pos" file is the position
+// whose image the database handle returns, before and after applying a
+// replicated transaction; any read chunking gives the same text.
+func VerifMountPos() {
+	ctx := context.Background()
+	wal := rt.Choose("wal.mode", 2) == 1
+	store, db, _ := litefs.VerifReplicaWorld(1+rt.Choose("n0", 2), wal)
+	fsys := &FileSystem{store: store}
+	fsys.root = newRootNode(fsys)
+	pn := verifLookup(ctx, fsys, "db-pos").(*PosNode)
+	dn := verifLookup(ctx, fsys, "db").(*DatabaseNode)
+	h, err := dn.Open(ctx, &fuse.OpenRequest{}, &fuse.OpenResponse{})
+	rt.Check(err == nil, "mount: open database on a replica")
+	dh := h.(*DatabaseHandle)
+	check := func(tag string, want [][]byte) {
+		pos := db.Pos()
+		text := pos.TXID.String() + "/" + pos.PostApplyChecksum.String() + "\n"
+		rt.Check(len(text) == PosFileSize, "mount: position text has the advertised size")
+		chunk := []int{64, 34, 16, 7}[rt.Choose("pos.read.chunk", 4)]
+		got, err := verifReadAll(ctx, pn, chunk)
+		rt.Check(err == nil, "mount: position file readable")
+		rt.Check(string(got) == text, "mount: the position file reports exactly the current position (TXID/checksum)")
+		var a fuse.Attr
+		rt.Check(pn.Attr(ctx, &a) == nil && a.Size == PosFileSize, "mount: position file size")
+		img := verifReadPages(ctx, dh, 3)
+		rt.Check(len(img) == len(want), "mount: size at the reported position")
+		for i := range img {
+			litefsSame(img[i], want[i])
+		}
+		rt.Check(pos.PostApplyChecksum == litefs.VerifSpecChecksum(img), "C04: mount: reported checksum is the from-scratch checksum of what the handle returns")
+	}
+	before := verifReadPages(ctx, dh, 3)
+	check("before", before)
+	file, after, pos1 := litefs.VerifEncodePage1Tx(db)
+	rt.Check(litefs.VerifReplicaApply(store, file) == nil, "mount: replicated transaction applied")
+	rt.Check(db.Pos() == pos1, "mount: replica is at the primary's position")
+	sawPos := false
+	for _, k := range litefs.VerifInvalidations(store) {
+		if k == "pos" {
+			sawPos = true
+		}
+	}
+	rt.Check(sawPos, "mount: the kernel's cached position file is invalidated when the position changes")
+	check("after", after)
+	rt.Reach("mount.pos")
+}
+
+func verifListed(ctx context.Context, fsys *FileSystem) map[string]bool {
+	ents, err := NewRootHandle(fsys.root).ReadDirAll(ctx)
+	rt.Check(err == nil, "mount: directory listing")
+	m := map[string]bool{}
+	for _, e := range ents {
+		m[e.Name] = true
+	}
+	return m
+}
+
+// VerifMountDrop: deleting a database through the mount on the primary, and
+// the same drop arriving on a replica: position +1 with the empty checksum,
+// files gone, and the database disappears from the directory listing.
+func VerifMountDrop() {
+	ctx := context.Background()
+	wal := rt.Choose("wal.mode", 2) == 1
+	primary := rt.Choose("role", 2) == 0
+	var store *litefs.Store
+	var db *litefs.DB
+	if primary {
+		store, db, _ = litefs.VerifPrimaryWorld(1+rt.Choose("n0", 2), wal)
+	} else {
+		store, db, _ = litefs.VerifReplicaWorld(1+rt.Choose("n0", 2), wal)
+	}
+	fsys := &FileSystem{store: store}
+	fsys.root = newRootNode(fsys)
+	pos0 := db.Pos()
+	l0 := verifListed(ctx, fsys)
+	rt.Check(l0["db"] && l0["db-pos"], "mount: database and its position file are listed while it exists")
+	if primary {
+		rt.Check(fsys.root.Remove(ctx, &fuse.RemoveRequest{Name: "db"}) == nil, "mount: unlink of the database on the primary")
+	} else {
+		rt.Check(fsys.root.Remove(ctx, &fuse.RemoveRequest{Name: "db"}) != nil, "mount: unlink of the database refused on a replica")
+		rt.Check(db.Pos() == pos0 && verifListed(ctx, fsys)["db"], "mount: refused unlink changes nothing")
+		rt.Check(litefs.VerifReplicaApply(store, litefs.VerifEncodeDropTx(db)) == nil, "mount: replica applies the drop")
+	}
+	pos1 := db.Pos()
+	rt.Check(pos1.TXID == pos0.TXID+1 && uint64(pos1.PostApplyChecksum) == 1<<63, "mount: drop advances the position by exactly one with the empty checksum")
+	l1 := verifListed(ctx, fsys)
+	rt.Check(!l1["db"] && !l1["db-pos"] && !l1["db-journal"] && !l1["db-wal"] && !l1["db-shm"], "mount: the dropped database and its side files disappear from the directory listing")
+	var a fuse.Attr
+	rt.Check(newDatabaseNode(fsys, db).Attr(ctx, &a) == syscall.ENOENT, "mount: stat of the dropped database reports ENOENT")
+	rt.Check(newJournalNode(fsys, db).Attr(ctx, &a) == syscall.ENOENT, "mount: journal of the dropped database is gone")
+	rt.Check(newWALNode(fsys, db).Attr(ctx, &a) == syscall.ENOENT, "mount: WAL of the dropped database is gone")
+	rt.Check(newSHMNode(fsys, db).Attr(ctx, &a) == syscall.ENOENT, "mount: shm of the dropped database is gone")
+	if primary {
+		// recreate under the same name through the mount: the sequence continues
+		_, h, err := fsys.root.Create(ctx, &fuse.CreateRequest{Name: "db"}, &fuse.CreateResponse{})
+		rt.Check(err == nil && h != nil, "mount: a database can be created again under the same name")
+		rt.Check(db.Pos() == pos1, "mount: re-creation alone does not move the position")
+		rt.Reach("mount.drop.primary")
+	} else {
+		rt.Reach("mount.drop.replica")
+	}
 }
